@@ -5,6 +5,7 @@ package props
 import (
 	"fmt"
 	"math"
+	"runtime"
 	"sort"
 	"strconv"
 
@@ -567,11 +568,14 @@ func runC17(c *fw.Ctx) {
 			Pad [7]int64
 		}
 		rotate := func(name string, n int, rot func(k int), at func(i int) int) bool {
-			for _, k := range []int{-1, 1, -(n / 2), n/2 + 1, -(n - 7), n - 3, -5, 4099} {
+			// shifts of both signs; for sizes that are multiples of 1024 also shifts
+			// that share a large divisor with n (many short cycles)
+			shifts := []int{-1, 1, -(n / 2), n/2 + 1, -(n - 7), n - 3, -5, 4099, 1024, -4096, 6144, n / 4, -(n / 8), 3 * (n / 16)}
+			for _, k := range shifts {
 				rot(k) // the checks below undo nothing: shifts accumulate
 			}
 			total := 0
-			for _, k := range []int{-1, 1, -(n / 2), n/2 + 1, -(n - 7), n - 3, -5, 4099} {
+			for _, k := range shifts {
 				total += k
 			}
 			kk := ((total % n) + n) % n
@@ -581,7 +585,7 @@ func runC17(c *fw.Ctx) {
 					to -= n
 				}
 				if at(to) != i {
-					c.Fail(map[string]any{"func": "Rotate", "element_type": name, "n": n, "shifts_applied_in_turn": []int{-1, 1, -(n / 2), n/2 + 1, -(n - 7), n - 3, -5, 4099}}, "after the shifts the element originally at index %d is not at index %d", i, to)
+					c.Fail(map[string]any{"func": "Rotate", "element_type": name, "n": n, "shifts_applied_in_turn": shifts, "gomaxprocs": runtime.GOMAXPROCS(0)}, "after the shifts the element originally at index %d is not at index %d", i, to)
 					return false
 				}
 			}
@@ -589,7 +593,7 @@ func runC17(c *fw.Ctx) {
 			return true
 		}
 		ok, pv, stack := fw.Try(func() {
-			n := []int{1<<20 + 3, 2100000, 1<<21 + 5, 1<<22 + 1, 1<<23 + 7, 3000001, 1<<24 + 3, 1<<25 + 1}[c.Block]
+			n := []int{1 << 20, 513 * 4096, 1<<21 + 4096, 1 << 22, 1<<23 + 8192, 3 << 20, 1 << 24, 1<<25 + 4096}[c.Block] // multiples of 4096, so that shifts by 1024, 4096, n/4 ... split the slice into many cycles
 			switch c.Block % 3 {
 			case 0:
 				vs := make([]int, n)
